@@ -192,10 +192,25 @@ class RespV(Val):
 
 
 class HeadersV(Val):
+  """Response headers: content-length may be ABSENT (chunked / unknown size): a fresh Bool decides."""
+
+  def _present(self, ctx):
+    return ctx.branch(ctx.ghost.setdefault('has_content_length', ctx.fresh('has_content_length', 'bool')))
+
   def getitem(self, ctx, key):
     if key == 'content-length':
-      return LenStrV()
+      if self._present(ctx):
+        return LenStrV()
+      ctx.tags['faults'] = ctx.tags.get('faults', 0) + 1     # a KeyError here is a failed transfer, like any I/O error
+      raise RaiseSig(ExcV('KeyError'))
     raise Unsupported('header')
+
+  def method(self, ctx, name, args, kwargs):
+    if name == 'get' and args and args[0] == 'content-length':
+      if self._present(ctx):
+        return LenStrV()
+      return args[1] if len(args) > 1 else None
+    raise Unsupported(f'headers.{name}')
 
 
 class LenStrV(StrV):
